@@ -272,7 +272,7 @@ func runECUnit(repair bool) func(u *Unit) {
 		run := func(c *ecCase) bool {
 			curCase = c
 			var vs []Violation
-			if c.Size >= 4096 {
+			if c.Size >= 16384 {
 				vs = runECCaseIsolated(c) // the codec spawns goroutines for large shards: a panic there kills the process
 			} else {
 				vs = runECCase(c)
@@ -373,7 +373,7 @@ func replayEC(payload json.RawMessage) []Violation {
 	if err := json.Unmarshal(payload, &c); err != nil {
 		return []Violation{{Class: "bad-replay-file", Msg: err.Error()}}
 	}
-	if c.Size >= 4096 {
+	if c.Size >= 16384 {
 		return runECCaseIsolated(&c)
 	}
 	return runECCase(&c)
